@@ -12,8 +12,11 @@ import json, os, re, shutil, subprocess, sys, tempfile
 
 VERIF = os.path.dirname(os.path.dirname(os.path.abspath(__file__)))
 ENV = dict(os.environ, GOFLAGS="-mod=mod -trimpath", GOPROXY="off", GOSUMDB="off", GOTOOLCHAIN="local", GOWORK="off")
+TENV = dict(ENV, GOFLAGS="-mod=mod")   # the test suite finds its test data through runtime.Caller: no -trimpath when tests are run
 
-def sh(cmd, cwd, env=ENV, timeout=1200):
+def sh(cmd, cwd, env=None, timeout=1200):
+    if env is None:
+        env = TENV if (isinstance(cmd, str) and "go test" in cmd) else ENV
     p = subprocess.run(cmd, cwd=cwd, env=env, shell=isinstance(cmd, str), capture_output=True, text=True, timeout=timeout)
     return p.returncode, (p.stdout + p.stderr)
 
@@ -64,7 +67,7 @@ def main():
         vd = os.path.join(d, "verif"); os.makedirs(os.path.join(vd, "evidence"))
         for f in ("known_findings.jsonl", "exceptions.json", "properties.jsonl"):
             shutil.copy(os.path.join(VERIF, f), vd)
-        rc, out = sh([os.path.join(VERIF, "bin/ankocheck"), *props, "--root", wt], VERIF, env=dict(ENV, VERIF_DIR=vd))
+        rc, out = sh([os.path.join(VERIF, "bin/ankocheck"), *(["all"] if "all" in props else props), "--root", wt], VERIF, env=dict(ENV, VERIF_DIR=vd))
         fired = [l.strip() for l in out.splitlines() if re.match(r"^  C\d\d \[", l)]
         meta["checks_run"] = props
         meta["caught_by"] = sorted(set(re.findall(r"\[(C\d\d\.R\d+)\]", "\n".join(fired))))
